@@ -1,6 +1,8 @@
 package props
 
 import (
+	"verifsim/dmgref"
+
 	"fmt"
 	"image"
 
@@ -36,7 +38,7 @@ func (c26) Describe() engine.Info {
 		Rule: "class progress: random machine state + generated program with DIV/LCDC/FF46 writes, HALT and STOP + key events; class stop: real Run() under SimContext with cancel-before-start / cancel at the k-th Done evaluation / cancel mid-frame at a random cycle / window close at frame k, workloads with LCD on and off, audio and video attached or not. " +
 			"Oracle progress: exactly one step per party per cycle (a guest write to DIV/LCDC/FF46 in cycle n is seen by that party's tick in cycle n: counter=4, PPU position=1, DMA progress=1), 17,556 cycles between frames handed to the display, 738..740 stereo samples per frame when sound is on. Oracle stop: Run returns having started no frame after the request was visible, the frame in flight completes, Cleanup released the display once and closed both sample channels. Signature = (class, request kind, frame phase bucket / party event kind).",
 		Assumptions:    []string{"party progress is read through the verif accessors (timer counter, PPU position, DMA progress, RTC sub-second count)", "audio progress is judged by samples per frame (black box)"},
-		RequiredProbes: []string{"frames_counted", "guest_div_write", "guest_lcdc_on", "guest_dma_start", "cpu_stopped_cycles", "cpu_halted_cycles", "cancel_mid_frame", "cancel_at_done", "close_request", "cancel_before_start", "channels_closed"},
+		RequiredProbes: []string{"timer_overflow_request_checked", "frames_counted", "guest_div_write", "guest_lcdc_on", "guest_dma_start", "cpu_stopped_cycles", "cpu_halted_cycles", "cancel_mid_frame", "cancel_at_done", "close_request", "cancel_before_start", "channels_closed"},
 		RealComponents: realComponents, StubComponents: stubComponents,
 	}
 }
@@ -63,6 +65,9 @@ func (c26) Generate(r *engine.Rand, index int, tier string) *engine.Scenario {
 					}
 				case 0x07:
 					v = r.Byte() & 7
+					if r.Bool() {
+						v = 5 // the fastest rate: overflows within the run
+					}
 				}
 				g.emit(0x3e, v, 0xe0, a)
 			case k == 4:
@@ -130,6 +135,14 @@ func (c26) progress(sc *engine.Scenario) *engine.Result {
 	prevOn := m.PPU.VerifOn()
 	prevDMAon, prevDMA := m.OAM.VerifDMA()
 	prevRTC := m.Map.VerifGetRTC().Ticks
+	// reference timer alongside: an overflow must raise the timer request whatever the CPU's
+	// master enable is (IE is 0 in these programs, so nothing is ever dispatched or acknowledged)
+	var rt dmgref.Timer
+	rt.Reset(prevCtr)
+	rt.TIMA, rt.TMA = m.Read(0xff05), m.Read(0xff06)
+	rt.WriteTAC(m.Read(0xff07))
+	reqDue := uint64(0)
+	prevIF2 := m.IRQ.ReadIF()&4 != 0
 	samples := 0
 	frameStart := uint64(0)
 	lastFrameN := uint64(0)
@@ -186,6 +199,38 @@ func (c26) progress(sc *engine.Scenario) *engine.Result {
 			}
 		}
 		_ = wroteTimer
+		for _, a := range l.ref.Acc {
+			if a.Write && a.Cycle == l.ref.Cycles && l.k == l.ref.Cycles {
+				switch a.Addr {
+				case 0xff04:
+					rt.WriteDIV()
+				case 0xff05:
+					rt.WriteTIMA(a.Val)
+				case 0xff06:
+					rt.WriteTMA(a.Val)
+				case 0xff07:
+					rt.WriteTAC(a.Val)
+				case 0xff0f:
+					reqDue = 0
+				}
+			}
+		}
+		ovBefore := rt.Overflows
+		rt.Tick()
+		if reqDue != 0 && rt.Cancelled {
+			reqDue = 0 // a TIMA write in the cycle after the overflow cancels the reload and the request
+		}
+		if reqDue != 0 && m.N >= reqDue {
+			reqDue = 0
+			res.Probe("timer_overflow_request_checked")
+			if m.IRQ.ReadIF()&4 == 0 {
+				fail("timer-overflow-without-request", "TIMA overflowed and was reloaded (reference timer) but IF bit 2 is not set after the reload cycle (master enable %v, IE %02x)", m.IRQ.Enabled(), m.IRQ.ReadIE())
+			}
+		}
+		if rt.Overflows != ovBefore && rt.OverflowByTick && !prevIF2 {
+			reqDue = m.N + 2 // the request flag was clear before: it must be set once the reload cycle is over
+		}
+		prevIF2 = m.IRQ.ReadIF()&4 != 0
 		// timer
 		ctr := m.Tim.VerifCounter()
 		switch {
